@@ -16,6 +16,7 @@ DT = {
     'float64': ('real', True, True, Fraction(1, 10 ** 12)),
     'float32': ('real', True, True, Fraction(1, 10 ** 5)),
     'float16': ('real', True, False, Fraction(1, 100)),
+    'float128': ('real', True, False, Fraction(1, 10 ** 12)),
     'complex128': ('cx', True, True, Fraction(1, 10 ** 12)),
     'complex64': ('cx', True, True, Fraction(1, 10 ** 5)),
     'int64': ('int', False, False, Fraction(0)),
@@ -112,7 +113,8 @@ def rand_vals(rng, shape, lo=-6, hi=6):
 
 
 # ------------------------------------------------------------------ tensor-level lincomb cases
-BIG = 2000      # from this size on arrays are periodic (closed form) and are passed as one period
+BIG = 2000      # from this size on a case costs seconds of vm_compute: such cases get their own small shards
+PERIODIC = 100  # from this size on arrays are periodic (closed form) and are passed to Coq as one period
 
 
 def lincomb_case(rng, dtype, shape, layouts, alias, a, b, poison):
@@ -125,15 +127,16 @@ def lincomb_case(rng, dtype, shape, layouts, alias, a, b, poison):
     space = odl.tensor_space(shape, dtype=dtype)
     n = int(np.prod(shape))
     ix1, ix2, iout = ALIAS[alias]
-    big = n >= BIG
+    big = n >= PERIODIC
     gens = []
     vals = []
     for k in range(3):
         if big:
-            g = (rng.choice([1, 2, 3, 5]), rng.randint(0, 6), rng.choice([13, 7, 5]), rng.randint(2, 4))
+            small = n < BIG
+            g = (rng.choice([1, 2, 3, 5]), rng.randint(0, 6), rng.choice([3, 4] if small else [13, 7, 5]), rng.randint(1, 3))
             v = closed_form(n, *g).astype(float).reshape(shape)
             if base == 'cx':
-                g2 = (rng.choice([1, 2, 3]), rng.randint(0, 4), rng.choice([7, 5]), 2)
+                g2 = (rng.choice([1, 2, 3]), rng.randint(0, 4), rng.choice([2, 3] if small else [7, 5]), 1)
                 v = v + 1j * closed_form(n, *g2).reshape(shape)
                 g = (g, g2)
             gens.append(g)
@@ -174,7 +177,7 @@ def lincomb_case(rng, dtype, shape, layouts, alias, a, b, poison):
         if is_before and k in poisoned:
             return '(cyc %d [None])' % n
         # after: one period if the array is periodic, the full literal otherwise
-        for period in (455, 455 * 4):
+        for period in (12, 455, 455 * 4):
             pat = flat[:period]
             if np.array_equal(np.resize(pat, n), flat, equal_nan=True):
                 return '(cyc %d %s)' % (n, lits(carrier, pat))
@@ -267,6 +270,26 @@ def lincomb_cases(rng, tier, S):
                     for alias in ALIAS:
                         for a, b in rng.sample(pairs, 1 if quick else 2):
                             run(shape, alias, a, b, want_blas=rng.random() < 0.7)
+        # B2. >= 50000 entries where BLAS must NOT be used: strided / mixed-order arrays, non-BLAS dtypes
+        #     (a wrong dispatch leaves `out` unchanged or pairs entries in different orders)
+        if dtype in ('float64', 'complex128', 'float16', 'float128') or (bdt and not quick):
+            plan = []
+            if dtype == 'float64':
+                plan += [((50000,), lay, al) for lay in ('SSS', 'SCC', 'CSC', 'CCS') for al in ALIAS]
+                plan += [((250, 200), lay, al) for lay in ('CFC', 'FCF', 'FFF', 'SFF', 'CCF')
+                         for al in (ALIAS if not quick else ('distinct', 'out_is_x1', 'out_is_x2'))]
+            elif dtype == 'complex128':
+                plan += [((50000,), lay, al) for lay in ('SSS', 'CCS') for al in ALIAS]
+            elif dtype in ('float16', 'float128'):
+                plan += [((50000,), 'CCC', al) for al in ALIAS]
+                if not quick:
+                    plan += [((250, 200), 'FFF', al) for al in ALIAS]
+            else:
+                plan += [((50000,), lay, al) for lay in ('SSS', 'CCS') for al in ALIAS]
+            for shape, lay, alias in plan:
+                a, b = rng.choice([pr for pr in pairs if pr[0] != 0 and pr[1] != 0])
+                S.put('lin', dtype, lincomb_case(rng, dtype, shape, lay, alias, a, b,
+                                                 'unused' if (base != 'int' and rng.random() < 0.4 and dtype not in ('float16', 'float128')) else None))
         # C. shape sweep
         for shape in small + med:
             for alias in ALIAS:
@@ -274,7 +297,7 @@ def lincomb_cases(rng, tier, S):
                     run(shape, alias, a, b)
         # D. poisoned runs (floating dtypes): NaN in every buffer the call must not read
         #    (`out` when it is not an operand, the unused third buffer), and NaN inside an operand
-        if base in ('real', 'cx') and dtype != 'float16':
+        if base in ('real', 'cx') and dtype not in ('float16', 'float128'):
             for shape in [(3,), (100,)] + ([(3, 4), (10, 10)] if not quick else []):
                 for alias in ALIAS:
                     for a, b in (pairs if main else rng.sample(pairs, 6)):
@@ -323,8 +346,8 @@ def rand_leaf_vals(rng, r, kind):
     dtype, shape = r[1], r[2]
     n = int(np.prod(shape))
     base = DT[dtype][0]
-    if n >= BIG:
-        g = (rng.choice([1, 2, 3, 5]), rng.randint(0, 6), rng.choice([13, 7, 5]), rng.randint(2, 4))
+    if n >= PERIODIC:
+        g = (rng.choice([1, 2, 3, 5]), rng.randint(0, 6), rng.choice([3, 4] if n < BIG else [13, 7, 5]), rng.randint(1, 3))
         v = closed_form(n, *g).astype(float)
         if kind == 'div':
             v = np.where(v == 0, 2.0, v)
@@ -336,7 +359,7 @@ def rand_leaf_vals(rng, r, kind):
         v = np.array([float(rng.randint(-6, 6)) for _ in range(n)])
     v = v.reshape(shape)
     if base == 'cx' and kind != 'div':
-        w = np.array([float(rng.randint(-2, 2)) for _ in range(min(n, 455))])
+        w = np.array([float(rng.randint(-2, 2)) for _ in range(n if n < PERIODIC else (12 if n < BIG else 455))])
         v = v + 1j * np.resize(w, n).reshape(shape)
     return v
 
@@ -428,8 +451,8 @@ class Ctx(object):
 def compress(carrier, flat):
     flat = np.asarray(flat).ravel()
     n = flat.size
-    if n >= BIG:
-        for period in (1, 455, 1820):
+    if n >= PERIODIC:
+        for period in (1, 12, 455, 1820):
             if np.array_equal(np.resize(flat[:period], n), flat, equal_nan=True):
                 return '(cyc %d %s)' % (n, lits(carrier, flat[:period]))
     return lits(carrier, flat)
@@ -749,6 +772,33 @@ def oracle(kind, **p):
                 if k != iout and els[k].data.tobytes() != before[k].tobytes():
                     ok = False
             return ok, got.ravel()[:8].tolist(), want.ravel()[:8].tolist()
+        if kind == 'lincomb_sp':
+            import random as _r
+            prng = _r.Random(p['seed'])
+            recipe = p['recipe']
+            space = mk_space(recipe)
+            els = [mk_element(prng, recipe, 'any', layout=p['layouts'][k]) for k in range(3)]
+            ix1, ix2, iout = ALIAS[p['alias']]
+            if p.get('nan_out') and iout not in (ix1, ix2):
+                for t in leaf_tensors(els[iout]):
+                    t.data[...] = np.nan
+            before = [[np.array(t.data, copy=True) for t in leaf_tensors(e)] for e in els]
+            a, b = p['a'], p['b']
+            res = space.lincomb(a, els[ix1], b, els[ix2], out=els[iout])
+            ok = res is els[iout]
+            obs = exp = None
+            for k, t in enumerate(leaf_tensors(els[iout])):
+                want = a * before[ix1][k] + b * before[ix2][k]
+                got = np.asarray(t.data)
+                if not _close(got, want, got.dtype):
+                    ok = False
+                    obs, exp = got.ravel()[:6].tolist(), np.asarray(want).ravel()[:6].tolist()
+            for j in range(3):
+                if j != iout:
+                    for t, u in zip(leaf_tensors(els[j]), before[j]):
+                        if not np.array_equal(np.asarray(t.data), u):
+                            ok = False
+            return ok, obs, exp
         if kind == 'set_zero':
             space = odl.tensor_space(p['n'], dtype=p['dtype']) if p.get('space', 'tensor') == 'tensor' else \
                 odl.uniform_discr(0, 1, p['n'], dtype=p['dtype'])
@@ -804,8 +854,9 @@ def oracle(kind, **p):
             prng = _r.Random(p['seed'])
             space = mk_space(recipe)
             divk = 'div' if op in ('truediv', 'itruediv', 'rtruediv_s') else ('pow' if op in ('ipow', 'pow') else 'any')
-            x = mk_element(prng, recipe, 'div' if op == 'rtruediv_s' else ('pow' if divk == 'pow' else 'any'))
-            y = x if p.get('same') else mk_element(prng, recipe, divk)
+            lays = p.get('layouts') or (None, None)
+            x = mk_element(prng, recipe, 'div' if op == 'rtruediv_s' else ('pow' if divk == 'pow' else 'any'), layout=lays[0])
+            y = x if p.get('same') else mk_element(prng, recipe, divk, layout=lays[1])
             if p.get('same') and divk == 'div':
                 x = y = mk_element(prng, recipe, 'div')
             c = p.get('c', 2)
@@ -892,6 +943,56 @@ def probes(rng, tier):
                            'other operands bit-identical' % (a, b, dtype, shape, lay, alias),
                            'lincomb', dtype=dtype, shape=list(shape), layouts=lay, alias=alias, a=a, b=b,
                            seed=rng.randint(0, 10 ** 6), nan_out=bool(nan_out))
+    # 1b. >= 50000 entries with every layout / dtype for which BLAS is or is not applicable (whole array
+    #     compared against a*x1+b*x2 on copies; old out NaN-filled when it is not an operand)
+    big_shapes = [((50000,), ['CCC', 'SSS', 'SCC', 'CSC', 'CCS']), ((50001,), ['CCC', 'CCS']),
+                  ((250, 200), ['CCC', 'FFF', 'CFC', 'FCF', 'CCF', 'FFC', 'SFF', 'CCS', 'FFS'])]
+    for dtype in ['float64', 'float32', 'float16', 'float128', 'complex128', 'complex64']:
+        base, fl, bdt, tol = DT[dtype]
+        pairs = [pr for pr in (CX_PAIRS if base == 'cx' else REAL_PAIRS)]
+        for shape, lays in big_shapes:
+            for lay in lays:
+                for alias in ALIAS:
+                    for nan_out in ((False, True) if alias in ('distinct', 'x1_is_x2') else (False,)):
+                        a, b = rng.choice(pairs)
+                        kind = 'blas-ok' if (bdt and set(lay) in ({'C'}, {'F'})) else 'blas-not-applicable'
+                        _probe(out, 'lincomb-large-%s-%s-%s-%s%s' % (kind, lay, alias, dtype, '-nan-out' if nan_out else ''),
+                               'space.lincomb(%r, x1, %r, x2, out) on %s%r layouts %s, alias %s (whole array vs a*x1+b*x2 on copies)'
+                               % (a, b, dtype, shape, lay, alias),
+                               'lincomb', dtype=dtype, shape=list(shape), layouts=lay, alias=alias, a=a, b=b,
+                               seed=rng.randint(0, 10 ** 6), nan_out=nan_out)
+    # 1c. integer dtypes around the 100-entry switch, all alias patterns, scalars that use both operands
+    for dtype in ('int64', 'int32'):
+        for n in (99, 100, 101, 200):
+            for alias in ALIAS:
+                for a, b in [(1, 1), (2, 3), (1, -1), (-1, 2), (0, 2), (3, 0)]:
+                    _probe(out, 'lincomb-int-%d-%s' % (n, alias),
+                           'space.lincomb(%r, x1, %r, x2, out) on %s(%d), alias %s' % (a, b, dtype, n, alias),
+                           'lincomb', dtype=dtype, shape=[n], layouts='CCC', alias=alias, a=a, b=b,
+                           seed=rng.randint(0, 10 ** 6), nan_out=False)
+            for op in ('add_s', 'radd_s', 'sub_s', 'rsub_s', 'mul_s', 'iadd_s', 'isub_s', 'add', 'sub', 'iadd', 'isub',
+                       'mul', 'imul', 'neg', 'copy', 'assign'):
+                _probe(out, 'op-%s-tensor-int-%d' % (op, n), '%s on tensor_space(%d, %s)' % (op, n, dtype),
+                       'op', recipe=('T', dtype, (n,)), op=op, same=False, c=rng.choice([2, -3, 1, 5]),
+                       seed=rng.randint(0, 10 ** 6))
+    # 1d. >= 50000 entries in >= 2 dimensions with elements of different memory order, through
+    #     uniform_discr and product-space components
+    nd = [('D', 'float64', (250, 200)), ('T', 'float64', (100, 500)), ('D', 'complex128', (250, 200)),
+          ('P', [('D', 'float64', (250, 200)), ('T', 'float64', (200, 250))]),
+          ('P', [('P', [('T', 'float64', (250, 200))] * 2), ('D', 'float64', (3, 2))])]
+    for r in nd:
+        for lays in ('CCC', 'FFF', 'CFC', 'FCF', 'CCF', 'FFC', 'CFF'):
+            for alias in ALIAS:
+                a, b = rng.choice([pr for pr in REAL_PAIRS if pr[0] != 0 and pr[1] != 0])
+                _probe(out, 'lincomb-large-nd-%s-%s-%s' % (_spacekind(r), lays, alias),
+                       'space.lincomb(%r, x1, %r, x2, out) on %r with element orders %s, alias %s' % (a, b, r, lays, alias),
+                       'lincomb_sp', recipe=r, layouts=lays, alias=alias, a=a, b=b, seed=rng.randint(0, 10 ** 6),
+                       nan_out=(alias in ('distinct', 'x1_is_x2')))
+        for op in ('add', 'sub', 'iadd', 'isub', 'mul', 'imul', 'add_s', 'rsub_s', 'assign', 'copy'):
+            for lays in (('C', 'F'), ('F', 'C'), ('F', 'F')):
+                _probe(out, 'op-%s-large-nd-%s-%s' % (op, _spacekind(r), ''.join(lays)),
+                       '%s on %r, x in %s order, y in %s order' % (op, r, lays[0], lays[1]),
+                       'op', recipe=r, op=op, same=False, c=2, seed=rng.randint(0, 10 ** 6), layouts=lays)
     # 2. set_zero() on garbage
     for n in [1, 3, 99, 100, 101, 50000]:
         for fill in ('nan', 'inf'):
